@@ -256,26 +256,34 @@ func checkRecord(c *hl.Ctx, rc *recCase) bool {
 	ok := true
 	canon := canonical(want.SPS...) && canonical(want.PPS...)
 
-	// independent writer -> library reader -> library writer
-	r := avc.NewAVCDecoderConfigurationRecord()
-	var err error
-	if p, msg := hl.Try(func() { err = r.UnmarshalBinary(wb) }); p {
-		c.Violation("record/panic/unmarshal", fmt.Sprintf("%s written by the ISO writer as %s: UnmarshalBinary panicked: %s", desc, hl.Hex(wb), msg), rc)
-		return false
-	}
-	if err != nil {
-		c.Violation("record/ref-to-lib/error", fmt.Sprintf("%s written by the ISO writer as %s is rejected: %v", desc, hl.Hex(wb), err), rc)
-		ok = false
-	} else if d := sameRecord(r, want); d != "" {
-		c.Violation("record/ref-to-lib/"+fieldOf(d), fmt.Sprintf("%s written by the ISO writer as %s reads back differently: %s", desc, hl.Hex(wb), d), rc)
-		ok = false
-	} else if canon {
-		mb, merr := r.MarshalBinary()
-		if merr != nil || !bytes.Equal(mb, wb) {
-			c.Violation("record/remarshal/"+diffField(mb, want), fmt.Sprintf("canonical record %s (%s) unmarshalled and marshalled again gives %s (err=%v)", hl.Hex(wb), desc, hl.Hex(mb), merr), rc)
+	// independent writer -> library reader -> library writer; the target is built by the constructor or is a plain
+	// zero value (var r avc.AVCDecoderConfigurationRecord) - every field of the record, the version byte included, comes
+	// from the bytes read
+	for ti, r := range []*avc.AVCDecoderConfigurationRecord{avc.NewAVCDecoderConfigurationRecord(), {}} {
+		tgt, sfx := "", ""
+		if ti == 1 {
+			tgt, sfx = " into a zero-value target", "/zero-value-target"
+		}
+		var err error
+		if p, msg := hl.Try(func() { err = r.UnmarshalBinary(wb) }); p {
+			c.Violation("record/panic/unmarshal"+sfx, fmt.Sprintf("%s written by the ISO writer as %s: UnmarshalBinary%s panicked: %s", desc, hl.Hex(wb), tgt, msg), rc)
+			return false
+		}
+		if err != nil {
+			c.Violation("record/ref-to-lib/error"+sfx, fmt.Sprintf("%s written by the ISO writer as %s is rejected%s: %v", desc, hl.Hex(wb), tgt, err), rc)
 			ok = false
+		} else if d := sameRecord(r, want); d != "" {
+			c.Violation("record/ref-to-lib/"+fieldOf(d)+sfx, fmt.Sprintf("%s written by the ISO writer as %s reads back differently%s: %s", desc, hl.Hex(wb), tgt, d), rc)
+			ok = false
+		} else if canon {
+			mb, merr := r.MarshalBinary()
+			if merr != nil || !bytes.Equal(mb, wb) {
+				c.Violation("record/remarshal/"+diffField(mb, want)+sfx, fmt.Sprintf("canonical record %s (%s) unmarshalled%s and marshalled again gives %s (err=%v)", hl.Hex(wb), desc, tgt, hl.Hex(mb), merr), rc)
+				ok = false
+			}
 		}
 	}
+	var err error
 
 	// public API -> library writer == independent writer; library reader gives the same record back
 	if rc.Compat == 0 && canon {
